@@ -697,6 +697,14 @@ func Run(c *fw.Ctx) {
 		r := c.Rand("case", i)
 		g := pdfw.GenDoc(r, pdfw.DocOpts{MinPages: 1, MaxPages: 8, MaxLines: 6, MaxFonts: 2, TreeDepth: 1 + r.Intn(3), Inherit: "mixed", NoEmptyPages: true, FontKinds: []string{"t1-winansi", "t1-std", "tt-winansi-tounicode"}})
 		lay := pdfw.RandomLayout(r, 1)
+		if i%6 == 5 {
+			// pages sharing one inherited Resources dictionary while forms bring their
+			// own resources that give the same names another meaning: what one page's
+			// extraction does to the shared dictionaries shows on the pages after it
+			g = pdfw.GenDoc(r, pdfw.DocOpts{MinPages: 3, MaxPages: 6, MaxLines: 6, MaxFonts: 3, TreeDepth: 2, Inherit: []string{"root", "parent"}[i/6%2], NoEmptyPages: true, FontKinds: []string{"t1-winansi", "t1-macroman", "tt-winansi-tounicode"}, ExactKinds: true})
+			lay.Forms, lay.FontNameRot, lay.ResIndirect = true, true, i/12%2 == 0
+			c.Seen("doc", "shared-resources+renaming-forms")
+		}
 		damage := i%4 == 3 // one page's content stream is made undecodable
 		if damage {
 			lay.Filter, lay.Forms, lay.Split = "Fl", false, 1
